@@ -178,6 +178,11 @@ func (p *parser) recover(errp *error) {
 
 // stopParse terminates parsing.
 func (p *parser) stopParse() {
+	if p.lex != nil {
+		// Drain the lexer so that its goroutine exits even when parsing stopped early.
+		for range p.lex.tokens {
+		}
+	}
 	p.lex = nil
 }
 
